@@ -368,18 +368,6 @@ Proof.
               = ar * (st * st * (cp * cp + sp * sp) + ct * ct)) by ring.
   rewrite E, Hp. assert (E2 : st * st * 1 + ct * ct = ct * ct + st * st) by ring. rewrite E2, Ht. ring.
 Qed.
-(** Tmatrix.raw_fields: the postfactor rotation and the fixed einc = [1,0] cancel: E_sph = pf * (S11, -S21) *)
-Lemma tmat_postfactor_any pf s11 s12 s21 s22 cp sp :
-  cp * cp + sp * sp = 1 ->
-  tmat_field_sph K pf ((s11, s12), (s21, s22)) cp sp = (pf * s11, - (pf * s21)).
-Proof.
-  intros Hp. unfold tmat_field_sph, calc_scat_field, mmul22, incfield. cbn [fst snd].
-  apply f_equal2.
-  - assert (E : pf * ((s11 * cp + s12 * - sp) * (1 * cp + 0 * sp) + (s11 * sp + s12 * cp) * (1 * sp - 0 * cp)) * 1
-                = pf * s11 * (cp * cp + sp * sp)) by ring. rewrite E, Hp. ring.
-  - assert (E : pf * ((s21 * cp + s22 * - sp) * (1 * cp + 0 * sp) + (s21 * sp + s22 * cp) * (1 * sp - 0 * cp)) * - (1)
-                = - (pf * s21 * (cp * cp + sp * sp))) by ring. rewrite E, Hp. ring.
-Qed.
 End AnyField.
 
 (* ========================================================================================== *)
